@@ -225,6 +225,8 @@ def parts(ctx):
            dom={INT: (0, 5, 11, 12)}))
     A(dict(name="bigarr-d2", profile=P.bigarr_profile, depth=2, shards=32, mid_ops=_names("store", "storeb"),
            top_ops=_names("select", "selectb", "eqab"), max_new=1, dom={INT: (0, 5, 12)}))
+    A(dict(name="arridx-d3", profile=P.arridx_profile, depth=3, shards=16, mid_ops=_names("store", "select"),
+           top_ops=_names("select", "eq", "eqk"), max_new=1, dom={INT: (0, 7)}))
     # ---- uninterpreted functions over array arguments (extensionally equal literals that are different nodes)
     A(dict(name="ufarr-d2", profile=P.ufarr_profile, depth=2, shards=16, mid_ops=_names("f", "g", "k"),
            top_ops=_names("f", "k", "iff", "eqa", "eqk", "not")))
